@@ -40,6 +40,52 @@ def short(x, n=300):
   return s if len(s) <= n else s[:n] + '...<%d>' % len(s)
 
 
+def to_json(o):
+  """Lossless JSON encoding of generated cases (tuples, bytes, non-str dict keys, complex, special floats, sets)."""
+  t = type(o)
+  if o is None or t in (bool, int, str):
+    return o
+  if t is float:
+    return o if o == o and o not in (float('inf'), float('-inf')) else {'__float__': repr(o)}
+  if t is list:
+    return [to_json(x) for x in o]
+  if t is tuple:
+    return {'__tuple__': [to_json(x) for x in o]}
+  if t is bytes:
+    return {'__bytes__': o.hex()}
+  if t is complex:
+    return {'__complex__': [o.real, o.imag]}
+  if t in (set, frozenset):
+    return {'__set__': [to_json(x) for x in sorted(o, key=repr)]}
+  if t is dict:
+    if all(type(k) is str and not k.startswith('__') for k in o):
+      return {k: to_json(v) for k, v in o.items()}
+    return {'__dict__': [[to_json(k), to_json(v)] for k, v in o.items()]}
+  return {'__repr__': repr(o)}
+
+
+def from_json(o):
+  if isinstance(o, list):
+    return [from_json(x) for x in o]
+  if isinstance(o, dict):
+    if '__tuple__' in o:
+      return tuple(from_json(x) for x in o['__tuple__'])
+    if '__bytes__' in o:
+      return bytes.fromhex(o['__bytes__'])
+    if '__complex__' in o:
+      return complex(*o['__complex__'])
+    if '__float__' in o:
+      return float(o['__float__'])
+    if '__set__' in o:
+      return set(from_json(x) for x in o['__set__'])
+    if '__dict__' in o:
+      return {from_json(k): from_json(v) for k, v in o['__dict__']}
+    if '__repr__' in o:
+      return o['__repr__']
+    return {k: from_json(v) for k, v in o.items()}
+  return o
+
+
 class Inconclusive(Exception):
   pass
 
@@ -81,7 +127,7 @@ class Ctx:
 
   def sample(self, obj, cap=4):
     if len(self.samples) < cap:
-      self.samples.append(obj)
+      self.samples.append(to_json(obj))
 
   def note(self, k, v):
     self.notes[k] = v
@@ -94,8 +140,8 @@ class Ctx:
       self.violations.append({
           'key': key,
           'msg': short(msg, 2000),
-          'detail': detail,
-          'case': case if case is not None else self.cur_case,
+          'detail': to_json(detail),
+          'case': to_json(case if case is not None else self.cur_case),
           'worker': self.widx,
           'case_no': self.case_no,
       })
@@ -183,12 +229,13 @@ def replay_entry(pid, path):
             dict(mod.TIERS[tier]))
   if hasattr(mod, 'setup'):
     mod.setup(ctx)
-  ctx.cur_case = rec['case']
-  ctx.case_no = 1
+  case = from_json(rec['case'])
+  ctx.cur_case = case
+  ctx.case_no = rec.get('case_no', 1)
   if hasattr(mod, 'replay_case'):
-    mod.replay_case(ctx, rec['case'])
+    mod.replay_case(ctx, case)
   else:
-    mod.run_case(ctx, rec['case'])
+    mod.run_case(ctx, case)
   for v in ctx.violations:
     print('REPLAY-VIOLATION key=%s %s' % (v['key'], v['msg']))
     if v.get('detail'):
